@@ -237,6 +237,23 @@ def main():
     extract.REPO = REPO
     try:
         rep = extract.build(gen)
+        # views whose extracted text no longer compiles together with its contracts (renamed local used by a hint, new helper ...)
+        # are excluded like views outside the supported subset: properties depending on them become undecided, others are unaffected
+        for attempt in range(3):
+            rc, out, err, wall = sh('verus %s --no-verify --triggers-mode silent' % gen, timeout=600)
+            bad = {}
+            if rc != 0:
+                gl = open(gen).read().split('\n')
+                for m in re.finditer(r'^error(?:\[E\d+\])?: (.*)\n\s*--> [^:]+:(\d+):', err, re.M):
+                    mod = module_of_line(int(m.group(2)), gl)
+                    if mod.startswith('views::'): bad[mod.split('::')[1]] = 'does not compile with its contracts: ' + m.group(1)[:120]
+                    elif mod.startswith('props::'): bad.setdefault('__props__', []).append(mod.split('::')[1]) if isinstance(bad.get('__props__', []), list) else None
+            if not bad or not any(k != '__props__' for k in bad):
+                if rc != 0 and not bad:
+                    print('MACHINERY: verus rejected the generated text (not a verdict):\n' + err[:2500]); sys.exit(2)
+                break
+            excl = dict(rep.get('broken', {})); excl.update({k: v for k, v in bad.items() if k != '__props__'})
+            rep = extract.build(gen, exclude=excl)
     except extract.ExtractError as e:
         print('MACHINERY: extraction failed (not a verdict): %s' % e); sys.exit(2)
     gen_lines = open(gen).read().split('\n')
@@ -246,11 +263,20 @@ def main():
         print('MACHINERY: %s is not claimed (see MANIFEST.not_applicable)' % pid); sys.exit(2)
     cfg = claims.CLAIMS[pid]
     vlist = rep['modules'] if cfg['views'] == claims.ALL else [m for m in cfg['views'] if m in rep['modules']]
-    missing = [] if cfg['views'] == claims.ALL else [m for m in cfg['views'] if m not in rep['modules']]
-    if missing:
-        print('MACHINERY: views %s are not under contract' % missing); sys.exit(2)
+    missing = [m for m in rep.get('broken', {})] if cfg['views'] == claims.ALL else [m for m in cfg['views'] if m not in rep['modules']]
+    want_props = [os.path.basename(p)[:-3] for p in sorted(os.listdir(os.path.join(VF, 'props'))) if p.endswith('.rs') and p.lower().startswith(pid.lower())]
+    missing_props = [p for p in want_props if p in rep.get('props_skipped', [])]
+    if missing or missing_props:
+        # the property depends on a view whose code left the supported subset: the proof is unavailable for it; only a replayed failing input may alarm
+        pr = probe_search(pid, seed, 20000, None, sorted(set(k['skip'] for k in load_known() if k.get('property') == pid and k.get('skip'))))
+        if pr.get('found'):
+            rp = os.path.join(os.environ.get('VERIF_REPLAY_DIR', os.path.join(ROOT, 'replay')), '%s-%d.json' % (pid, int(time.time())))
+            json.dump(dict(property=pid, violation='failing-input-found-by-bounded-search', case=pr.get('case'), probe=pr), open(rp, 'w'), indent=1)
+            print('FAILING-INPUT: %s' % json.dumps(pr.get('case'))[:600]); print('VIOLATION property=%s replay=%s' % (pid, rp)); sys.exit(1)
+        print('MACHINERY: views %s could not be brought under contract on this tree (%s); %s is undecided here (bounded search over %s cases found no failing input)' % (
+            missing or missing_props, '; '.join('%s: %s' % kv for kv in rep.get('broken', {}).items())[:400], pid, pr.get('checked'))); sys.exit(2)
     mods = ['views::' + m for m in vlist]
-    pmods = ['props::' + os.path.basename(p)[:-3] for p in sorted(os.listdir(os.path.join(VF, 'props'))) if p.endswith('.rs') and p.lower().startswith(pid.lower())]
+    pmods = ['props::' + p for p in want_props]
     if pid == 'C18' and rep.get('unbounded_buffers'):
         print('MACHINERY: buffer fields without a declared C18 bound: %s (needs contract work, not a verdict)' % rep['unbounded_buffers']); sys.exit(2)
     # ---- canaries: the trusted base must not prove false
